@@ -277,6 +277,9 @@ func aliasOfResult(w *World, op *Op, prePtr []*tensor.Dense) string {
 	if op.Mode != "" && op.Mode != "same" {
 		indep = false
 	}
+	if op.Name == "FromMat64" && (op.Mode == "" || op.Mode == "mixed") {
+		indep = true // through a matrix that was a copy: the tensor shares with that matrix, never with the source
+	}
 	rs, rt := firstInt(res.Shape()), firstInt(res.Strides())
 	rp, rn := rawOf(res)
 	for i, t := range prePtr {
